@@ -66,6 +66,26 @@ def compat_cases(ctx):
             ok, exc = False, type(e).__name__ + ":" + str(e)[:80]
         if not ok:
             ctx.violation({"check": "compat-form", "form": form}, {"exc": exc})
+    # the compatibility forms AFTER the reader has used the type in other ways: as a member of a grouped record earlier in the
+    # stream, after its definition was printed / its full field list asked for (whatever those calls leave behind in the
+    # descriptor must not change how many values a record frame may carry)
+    grp_first = rc.frame(rc.ext(rc.T_GROUPED, ["grp/x", [[[name, rc.descriptor_hash(name, fields)], ["g", 1, "src", "cls", gen7, 1]]]]))
+    for form in ("extra-trailing-metadata", "one-extra-trailing-metadata", "no-version-field", "plain"):
+        for prelude in ("grouped-record-first", "definition-asked-first"):
+            ctx.case(("compat-after", prelude, form))
+            try:
+                rd = RecordStreamReader(io.BytesIO(H + Dfr + (grp_first if prelude == "grouped-record-first" else forms["plain"]) + forms[form]))
+                it = iter(rd)
+                first = next(it)
+                if prelude == "definition-asked-first":
+                    first._desc.definition(), first._desc.get_all_fields(), first._desc.getfields("string")
+                r = next(it)
+                ok = r.a == "v" and r.n == 5 and r._source == "src" and r._generated.microsecond == 6 and [n for _, n in r._desc.get_field_tuples()] == ["a", "n"] and list(it) == []
+                exc = "none"
+            except Exception as e:
+                ok, exc = False, type(e).__name__ + ":" + str(e)[:80]
+            if not ok:
+                ctx.violation({"check": "compat-form", "form": form, "after": prelude}, {"exc": exc})
     # latest definition wins for bare-name identifiers when several same-name descriptors were defined
     f2 = [("varint", "n")]
     data = H + rc.descriptor_frame(name, fields) + rc.descriptor_frame(name, f2) + rc.record_frame(name, f2, [7, None, None, gen7, 1], identifier="name")
@@ -132,6 +152,100 @@ def golden(ctx):
             ctx.violation({"check": "golden", "file": entry["file"]}, {"exc": exc})
 
 
+def concurrent_writers(ctx):
+    """Two independent stream writers in two threads; writer A's file object is slow: while it is inside write() -- holding
+    the data it was handed -- writer B writes a whole record of its own.  Each stream holds exactly its own frames."""
+    import threading
+
+    from flow.record import RecordDescriptor, RecordStreamWriter
+
+    DA = RecordDescriptor("conc/a", [("string", "s"), ("varint", "n")])
+    DB = RecordDescriptor("conc/b", [("varint", "n"), ("bytes", "blob")])
+    for arm_at in (1, 2, 3):                       # which of A's write() calls (after the header) is the slow one
+        ctx.case(("concurrent-writers", arm_at))
+        go, done = threading.Event(), threading.Event()
+
+        class Slow(io.RawIOBase):
+            def __init__(self):
+                self.data, self.calls = bytearray(), 0
+
+            def writable(self):
+                return True
+
+            def write(self, b):
+                self.calls += 1
+                if self.calls == arm_at + 2:       # (the first two calls carry the stream header)
+                    go.set()
+                    done.wait(10)
+                self.data += bytes(b)              # taken AFTER the other writer has run
+                return len(b)
+
+        sa, sb = Slow(), io.BytesIO()
+        wa, wb = RecordStreamWriter(sa), RecordStreamWriter(sb)
+
+        def other():
+            go.wait(10)
+            try:
+                wb.write(DB(77, b"\x00" * 300, _generated=gen.GEN))
+                wb.write(DB(78, b"\xff" * 5, _generated=gen.GEN))
+            finally:
+                done.set()
+
+        t = threading.Thread(target=other, daemon=True)
+        t.start()
+        exc = "none"
+        try:
+            wa.write(DA("first", 1, _generated=gen.GEN))
+            wa.write(DA("second", 2, _generated=gen.GEN))
+            go.set()
+            t.join(15)
+            wa.write(DA("third", 3, _generated=gen.GEN))
+            da, db = rc.decode_stream(bytes(sa.data)), rc.decode_stream(sb.getvalue())
+            ok = [x[2][1] for x in da if x[0] == "REC"] == [1, 2, 3] and [x[2][0] for x in db if x[0] == "REC"] == [77, 78]
+        except Exception as e:
+            ok, exc = False, type(e).__name__ + ":" + str(e)[:80]
+        wa.fp = wb.fp = None
+        if not ok:
+            ctx.violation({"check": "concurrent-writers", "slow_call": arm_at}, {"exc": exc})
+
+
+def grouped_attribute_names(ctx):
+    """member record types whose FIELDS are called what a grouped record calls its own attributes (name, records, ...): the
+    values the members were made with are what goes on the wire, and what comes back from a reference-encoded frame"""
+    from flow.record import GroupedRecord, RecordDescriptor, RecordStreamReader, RecordStreamWriter
+
+    fields = [("string", "name"), ("varint", "records"), ("string", "descriptors")]
+    mname, gname = "member/attrs", "grp/of_attrs"
+    gen7 = rc.ext_datetime_utc(2020, 1, 2, 3, 4, 5, 6)
+    want = ["the member's own name", 7, "its own descriptors text"]
+    ctx.case(("grouped-attribute-names", "write"))
+    exc = "none"
+    try:
+        M = RecordDescriptor(mname, fields)
+        g = GroupedRecord(gname, [M(*want, _generated=gen.GEN)])
+        b = io.BytesIO()
+        w = RecordStreamWriter(b)
+        w.write(g)
+        w.fp = None
+        grp = [x for x in rc.decode_stream(b.getvalue()) if x[0] == "GRP"]
+        ok = len(grp) == 1 and str(grp[0][1]) == gname and list(grp[0][2][0][2][:3]) == want
+    except Exception as e:
+        ok, exc = False, type(e).__name__ + ":" + str(e)[:80]
+    if not ok:
+        ctx.violation({"check": "grouped-attribute-names", "direction": "write"}, {"exc": exc})
+    ctx.case(("grouped-attribute-names", "read"))
+    try:
+        data = rc.header_frame() + rc.descriptor_frame(mname, fields) + rc.frame(rc.ext(rc.T_GROUPED, [gname, [[[mname, rc.descriptor_hash(mname, fields)], want + ["src", "cls", gen7, 1]]]]))
+        recs = list(RecordStreamReader(io.BytesIO(data)))
+        m = recs[0].records[0]
+        ok = len(recs) == 1 and [object.__getattribute__(m, "name"), int(object.__getattribute__(m, "records")), object.__getattribute__(m, "descriptors")] == want and recs[0]._desc.name == gname
+        exc = "none"
+    except Exception as e:
+        ok, exc = False, type(e).__name__ + ":" + str(e)[:80]
+    if not ok:
+        ctx.violation({"check": "grouped-attribute-names", "direction": "read"}, {"exc": exc})
+
+
 def run(tier):
     ctx = check.Ctx(PROP, tier)
     thorough = tier == "thorough"
@@ -149,6 +263,8 @@ def run(tier):
     r = ctx.tlc("Trace_Codec", "Trace_Codec_c02.cfg", f"{len(cases)} value cases + {len(scases)} stream cases", env={"TRACE_FILE": path}, workers=8)
     report(ctx, r, allc, metas, ("FormatC02", "FrameShape"), PROP)
     compat_cases(ctx)
+    concurrent_writers(ctx)
+    grouped_attribute_names(ctx)
     golden(ctx)
     ctx.count(len(allc), len(allc))
     ctx.extra["rule"] = "as C01 (type x form x class x writer path, record sequences), compared at token-family level with Enc and the frame grammar; + 8 compatibility forms built with the reference encoder; + the golden corpus"
